@@ -1139,3 +1139,62 @@ def gen_shared_state_table():
            + ',\n   '.join(f'("{a}", "{b_}", "{c}")' for a, b_, c in mod_rows) + ']\n\n'
            'end PhotVerif.Gen.SharedState\n')
     return 'SharedState.lean', src_all, out
+
+# ---------------------------------------------------------------- default origin of the image-based PSF models (C13)
+
+def gen_psf_origin():
+    """the index placed at (x_0, y_0) when no origin is given: `(np.array(self.data.shape) - c) / d`, flipped to (x, y) order, in
+    GriddedPSFModel.origin and in the ImagePSF.origin setter"""
+    p1 = os.path.join(REPO, 'photutils/psf/gridded_models.py')
+    p2 = os.path.join(REPO, 'photutils/psf/image_models.py')
+    src1, src2 = open(p1).read(), open(p2).read()
+
+    def shape_expr(v, where):
+        # (np.array(self.data.shape) - c) / d
+        ok = (isinstance(v, ast.BinOp) and isinstance(v.op, ast.Div) and isinstance(v.right, ast.Constant) and isinstance(v.left, ast.BinOp)
+              and isinstance(v.left.op, ast.Sub) and isinstance(v.left.right, ast.Constant)
+              and ast.unparse(v.left.left) in ('np.array(self.data.shape)', 'np.asarray(self.data.shape)'))
+        if not ok:
+            raise Unsupported(f'{where}: unexpected default origin expression: {ast.unparse(v)}')
+        c, d = v.left.right.value, v.right.value
+        if float(c) != int(c) or float(d) != int(d) or int(d) <= 0:
+            raise Unsupported(f'{where}: non-integer constants in {ast.unparse(v)}')
+        return int(c), int(d)
+
+    def flipped(fn, name, where):
+        fl = [x for x in ast.walk(fn) if isinstance(x, ast.Subscript) and isinstance(x.value, ast.Name) and x.value.id == name
+              and ast.unparse(x.slice) == '::-1']
+        if len(fl) != 1:
+            raise Unsupported(f'{where}: the (y, x) -> (x, y) flip `{name}[::-1]` was not found exactly once')
+    g = _cls_method(ast.parse(src1), 'GriddedPSFModel', 'origin')
+    asg = [x for x in ast.walk(g) if isinstance(x, ast.Assign) and len(x.targets) == 1 and isinstance(x.targets[0], ast.Name)]
+    if len(asg) != 1:
+        raise Unsupported('GriddedPSFModel.origin: expected one assignment')
+    gc, gd = shape_expr(asg[0].value, 'GriddedPSFModel.origin')
+    flipped(g, asg[0].targets[0].id, 'GriddedPSFModel.origin')
+    rets = [x for x in ast.walk(g) if isinstance(x, ast.Return)]
+    if len(rets) != 1 or ast.unparse(rets[0].value) != asg[0].targets[0].id + '[::-1]':
+        raise Unsupported(f'GriddedPSFModel.origin: unexpected return {ast.unparse(rets[0].value) if rets else None}')
+    t2 = ast.parse(src2)
+    setter = None
+    for c in t2.body:
+        if isinstance(c, ast.ClassDef) and c.name == 'ImagePSF':
+            for m in c.body:
+                if isinstance(m, ast.FunctionDef) and m.name == 'origin' and any(ast.unparse(d) == 'origin.setter' for d in m.decorator_list):
+                    setter = m
+    if setter is None:
+        raise Unsupported('ImagePSF.origin setter not found')
+    iff = [x for x in setter.body if isinstance(x, ast.If) and ast.unparse(x.test) == 'origin is None']
+    if len(iff) != 1:
+        raise Unsupported('ImagePSF.origin setter: `if origin is None` branch not found')
+    a2 = [x for x in iff[0].body if isinstance(x, ast.Assign)]
+    if len(a2) != 2 or ast.unparse(a2[1].value) != 'origin[::-1]':
+        raise Unsupported('ImagePSF.origin setter: expected the default expression followed by the flip')
+    ic, idn = shape_expr(a2[0].value, 'ImagePSF.origin setter')
+    out = ('/- GENERATED by tools/extract_tables.py from photutils/psf/{gridded_models,image_models}.py '
+           f'(sha256/16 {sha(src1 + src2)}). DO NOT EDIT. -/\n'
+           'import PhotVerif.Model.Prelude\nnamespace PhotVerif.Gen.PsfOrigin\n\n'
+           '/-- default origin along an axis of n samples = (n - sub) / den, for GriddedPSFModel and for ImagePSF(origin=None) -/\n'
+           f'def griddedSub : Int := {gc}\ndef griddedDen : Nat := {gd}\ndef imageSub : Int := {ic}\ndef imageDen : Nat := {idn}\n\n'
+           'end PhotVerif.Gen.PsfOrigin\n')
+    return 'PsfOrigin.lean', src1 + src2, out
